@@ -41,8 +41,26 @@ def gen_stage1(rng, n, grammar):
     return ixgen.gen_any_list(rng, n)
 
 
+def gen_out_of_range(rng, n):
+    """requests numpy itself refuses: an entry equal to or beyond the axis length (the run [n-1, n] included), an
+    integer outside [-n, n), a mask of another length"""
+    r = rng.random()
+    if r < 0.5:
+        head = sorted(rng.sample(range(n), rng.randint(0, min(n, 3)))) if n else []
+        if n and rng.random() < 0.5 and (n - 1) not in head:
+            head.append(n - 1)
+        return ('l', head + [n + rng.choice([0, 0, 0, 1, 2])])
+    if r < 0.7:
+        return ('i', rng.choice([n, n + 1, -n - 1]))
+    if r < 0.85:
+        return ('l', [-n - 1] + ([0] if n else []))
+    return ('m', [rng.random() < 0.6 for _ in range(n + rng.choice([-1, 1, 2]) if n else 1)])
+
+
 def gen_stage2(rng, n, grammar):
     r = rng.random()
+    if not grammar and r < 0.12:
+        return gen_out_of_range(rng, n)
     if r < 0.15:
         return FULL
     if r < 0.3 and n > 0:
@@ -111,6 +129,10 @@ def gen_concat(rng):
     case = dict(kind='concat', lens=lens, tail=tail, head=head, tails=maybe_trunc(rng, tails),
                 wrap=[rng.random() < 0.5 for _ in range(nparts)], arr=[rng.random() < 0.5 for _ in range(16)],
                 part_tf=rng.random() < 0.15)
+    # the concatenation's own transform chain (the HDF5 v1 reader's vis parts are concatenated under one):
+    # applied to every answer, whatever the form of the head index
+    case['cat_tf'] = [] if case['part_tf'] else \
+        [rng.choice(['x2', 'f32', 'rint2']) for _ in range(rng.choice([0, 0, 0, 1, 2]))]
     if tail and rng.random() < 0.25:
         # every part is a LazyIndexer with the same first-stage selection on the tail axes (sometimes empty):
         # shape / len of the concatenation and scalar / list head indices
@@ -232,7 +254,9 @@ def run_concat_impl(case):
             res['dtype'] = str(ConcatenatedLazyIndexer(inds).dtype)
         else:
             inds = [LazyIndexer(p) if w else p for p, w in zip(parts, case['wrap'])]
-        cat = ConcatenatedLazyIndexer(inds)
+        cat = ConcatenatedLazyIndexer(inds, transforms_for(case.get('cat_tf') or []))
+        if case.get('cat_tf'):
+            res['cat_dtype'] = str(cat.dtype)
         res['shape'] = tuple(cat.shape)
         res['len'] = len(cat)
         k = (ixgen.to_py(case['head'], as_array=case['arr'][0]),) + py_tuple(case['tails'], case['arr'], 1)
@@ -262,6 +286,30 @@ def concat_lines(c):
             f'concatspec {lens} {ixgen.enc_ix(c["head"])}']
 
 
+def entry_out_of_range(c):
+    """some integer of the second-stage key (alone or in a sequence) lies outside the axis it indexes, every
+    first-stage entry and every mask being well-formed"""
+    shape = c['shape']
+    k1 = list(c['k1']) + [FULL] * (len(shape) - len(c['k1']))
+    try:
+        sh1 = [ixgen.np_len(n, ix) for n, ix in zip(shape, k1)]
+    except Exception:   # noqa: BLE001
+        return False
+    k1_scalar = [ix[0] == 'i' for ix in k1]
+    axes = [n for n, sc in zip(sh1, k1_scalar) if not sc]
+    if len(c['k2']) > len(axes):
+        return False
+    found = False
+    for n, ix in zip(axes, c['k2']):
+        if ix[0] == 'm' and len(ix[1]) != n:
+            return False
+        if ix[0] == 'i' and not -n <= ix[1] < n:
+            found = True
+        if ix[0] == 'l' and any(not -n <= v < n for v in ix[1]):
+            found = True
+    return found
+
+
 def judge_single(ctx, c, replies, impl):
     mrep, srep, fullrep = replies
     g, srep = srep[:2], srep[3:]
@@ -269,6 +317,15 @@ def judge_single(ctx, c, replies, impl):
     sels = ixgen.parse_sels(srep)
     if isinstance(sels, tuple):       # spec itself is an error: invalid request per numpy
         ctx.tag('invalid-request')
+        if impl['err'] is None and not entry_out_of_range(c):
+            ctx.tag('invalid-request-answered-other')      # e.g. a mask of another length: the text is silent
+        elif impl['err'] is None:
+            # an integer (alone or in a sequence) outside the axis: source[first stage][second stage] refuses it, so
+            # answering with data is answering with different data (model: c05_list_out_of_bounds)
+            ctx.tag('invalid-request-answered')
+            return (f"a request that source[first stage][second stage] refuses ({srep}) was answered with data of shape "
+                    f"{impl['out'].shape} {impl['out'].ravel()[:8].tolist()}")
+        ctx.tag('invalid-request-rejected')
         return None
     exp = apply_tf(c['transforms'], ixgen.apply_sels(src, sels))
     ctx.tag('grammar' if g == 'G1' else 'malformed')
@@ -316,7 +373,9 @@ def judge_concat(ctx, c, replies, impl, whole):
     if isinstance(sels, tuple):
         ctx.tag('invalid-request')
         return None
-    exp = ixgen.apply_sels(whole, sels)
+    exp = apply_tf(c.get('cat_tf') or [], ixgen.apply_sels(whole, sels))
+    if c.get('cat_tf'):
+        ctx.tag('concat-own-transforms')
     head = c['head']
     total = sum(c['lens'])
     if c.get('k1tail') is not None:
@@ -347,6 +406,9 @@ def judge_concat(ctx, c, replies, impl, whole):
         kind = 'supported' if in_g else 'unsupported (must be rejected or numpy-equal)'
         return (f'concatenated indexer, {kind} head index: got shape {out.shape} {out.ravel()[:8].tolist()} '
                 f'expected shape {exp.shape} {exp.ravel()[:8].tolist()}')
+    if c.get('cat_tf') and (out.dtype != exp.dtype or impl.get('cat_dtype') != str(exp.dtype)):
+        return (f"concatenated indexer with its own transform chain {c['cat_tf']}: result dtype {out.dtype}, advertised "
+                f"dtype {impl.get('cat_dtype')}, the transforms applied to the indexed concatenation give {exp.dtype}")
     if mrep.startswith('E:') and in_g:
         ctx.advise(f'concat mirror model predicts {mrep} but implementation answered: {concat_lines(c)[0]}')
     return None
@@ -367,7 +429,7 @@ def head_in_grammar(ix, n):
 def concat_full_line(c):
     """whole request (head and tail axes) for the mirror's `concatFull`; None where the model does not apply
     (integer tail indices, parts with a first stage or a transform)"""
-    if c.get('k1tail') is not None or c.get('part_tf') or any(ix[0] == 'i' for ix in c['tails']):
+    if c.get('k1tail') is not None or c.get('part_tf') or c.get('cat_tf') or any(ix[0] == 'i' for ix in c['tails']):
         return None
     tails = list(c['tails']) + [FULL] * (len(c['tail']) - len(c['tails']))
     enc = []
